@@ -8,7 +8,9 @@ Binding:
         every step + predicted stream length).
   (e2e) class sequences are ingested through the OpenTSDB handler into the real engine and
         read back with a selector query: open block, after block/segment rotation, after
-        restart; several series with colliding tag concatenations must stay separate.
+        restart; several series with colliding tag concatenations must stay separate.  Besides the selector of each
+        series, the metric name alone is queried over the whole range and over prefix / suffix windows that leave some
+        of its series without any datapoint in range: the others must still come back complete and bit-exact.
 """
 import json
 import math
